@@ -85,12 +85,45 @@ func mkFuzzMarker(rnd *rand.Rand) string {
 	return b.String()
 }
 
+// mkFuzzQuoted composes a quoted property value from pieces that matter to the processors of
+// replacement markers: the % placeholder, escaped backslashes and quotes, at any position
+// (first, last, adjacent).
+func mkFuzzQuoted(rnd *rand.Rand) string {
+	var b strings.Builder
+	b.WriteString(`"`)
+	for k := rnd.Intn(5); k > 0; k-- {
+		b.WriteString([]string{"%", `\\`, `\"`, "x", " ", "é", "%", `\\`, "1", "item"}[rnd.Intn(10)])
+	}
+	b.WriteString(`"`)
+	return b.String()
+}
+
+// mkFuzzReplacement: a well-formed select / plural / ordinal marker whose SELECTED case is a
+// composed quoted value (so that the replacement code really runs on it).
+func mkFuzzReplacement(rnd *rand.Rand) string {
+	close := []string{"/]", " /]", "/ ]"}[rnd.Intn(3)]
+	switch rnd.Intn(3) {
+	case 0:
+		k := []string{"1", "a", "x1", "2"}[rnd.Intn(4)]
+		return "[select value=" + k + " " + k + "=" + mkFuzzQuoted(rnd) + " other=" + mkFuzzQuoted(rnd) + close
+	case 1:
+		n := []string{"1", "2", "0", "21"}[rnd.Intn(4)]
+		return "[plural value=" + n + " one=" + mkFuzzQuoted(rnd) + " other=" + mkFuzzQuoted(rnd) + close
+	default:
+		n := []string{"1", "2", "3", "4", "11", "22"}[rnd.Intn(6)]
+		return "[ordinal value=" + n + " one=" + mkFuzzQuoted(rnd) + " two=" + mkFuzzQuoted(rnd) + " few=" + mkFuzzQuoted(rnd) +
+			" other=" + mkFuzzQuoted(rnd) + close
+	}
+}
+
 // mkFuzzMarkers: text, marker-shaped fragments and close tags.
 func mkFuzzMarkers(rnd *rand.Rand, maxBytes int) string {
 	var b strings.Builder
 	for n := 1 + rnd.Intn(5); n > 0; n-- {
 		var t string
-		switch rnd.Intn(5) {
+		switch rnd.Intn(6) {
+		case 5:
+			t = mkFuzzReplacement(rnd)
 		case 0:
 			t = []string{"x", " ", "é ", "Name: ", " y ", "\\[", ":", "\t", "😀"}[rnd.Intn(9)]
 		case 1:
